@@ -3,6 +3,7 @@ import Clikit.Model.Wiring
 import Clikit.Lemmas.App
 import Clikit.Lemmas.RunListeners
 import Clikit.Props.C12
+import Clikit.Lemmas.CommandTree
 /-!
 # C04 - a run always ends in a valid exit status and never leaks a handler failure
 
@@ -790,5 +791,73 @@ example : let r := runWired false (.ok ()) [.handled { falsy := false, toInt := 
     r.status = some 5 ∧ r.handlerCalls = 0 ∧ r.reported = false := by decide
 
 end Wiring
+
+/-! ## The selected command is ANY command of the tree (`Model/CommandTree.lean`)
+
+The resolver may select a top-level command, a named / default / anonymous sub-command, or a sub-command of a
+sub-command.  Every theorem above takes "the PRE_HANDLE listeners" as a parameter `ls`; these say that for the
+command trees `ConsoleApplication` builds the parameter is the same for every command of the tree: the listeners
+registered on the APPLICATION's dispatcher. -/
+
+/-- Every command reached by descending into the tree `Command.__init__` builds for an application - at any
+depth - belongs to that application and holds the application's dispatcher. -/
+theorem sub_command_dispatcher (app : CommandTree.App) (tree : CommandTree.Cfg) (path : List Nat) (c : CommandTree.Cmd)
+    (h : CommandTree.descend (CommandTree.build (some app) tree) path = some c) :
+    c.dispatcher = some app.dispatcher ∧ c.application = some app := by
+  rw [CommandTree.descend_build] at h
+  cases hd : CommandTree.descendCfg tree path with
+  | none => simp [hd] at h
+  | some t =>
+    simp only [hd, Option.map_some, Option.some.injEq] at h
+    subst h
+    exact ⟨by simp [CommandTree.build_dispatcher], by simp [CommandTree.build_application]⟩
+
+/-- Hence the selected command - wherever it sits in the tree - consults exactly the listeners registered on the
+application's dispatcher ... -/
+theorem sub_command_listeners {α : Type} (app : CommandTree.App) (tree : CommandTree.Cfg) (path : List Nat) (ls : List α) :
+    CommandTree.consultedAt app tree path ls = (CommandTree.descendCfg tree path).map (fun _ => ls) := by
+  unfold CommandTree.consultedAt
+  rw [CommandTree.descend_build]
+  cases hd : CommandTree.descendCfg tree path with
+  | none => simp
+  | some t => simp [CommandTree.consulted, CommandTree.build_dispatcher]
+
+/-- ... and its run is the run of the run model with those listeners: everything proved above about `Run.run`
+(status range, containment, the handler invoked once iff no listener handled the event or failed, the listener
+order of the bridge) holds for a run that selects a sub-command at any depth. -/
+theorem sub_command_run (debug : Bool) (resolved : Except Exc Unit) (app : CommandTree.App) (tree : CommandTree.Cfg)
+    (path : List Nat) (ls : List Listener) (h : Outcome) (render : Exc → Bool) :
+    CommandTree.runAt debug resolved app tree path ls h render =
+      (CommandTree.descendCfg tree path).map (fun _ => run debug resolved ls h render) := by
+  unfold CommandTree.runAt
+  rw [sub_command_listeners]
+  cases CommandTree.descendCfg tree path <;> rfl
+
+/-- (the other branch of `Command.__init__`) a command tree built WITHOUT an application has no dispatcher
+anywhere: its commands consult no listener. -/
+theorem command_without_application (tree : CommandTree.Cfg) (path : List Nat) (c : CommandTree.Cmd)
+    (h : CommandTree.descend (CommandTree.build none tree) path = some c) (app : CommandTree.App) (ls : List Listener) :
+    c.dispatcher = none ∧ CommandTree.consulted app c ls = [] := by
+  rw [CommandTree.descend_build] at h
+  cases hd : CommandTree.descendCfg tree path with
+  | none => simp [hd] at h
+  | some t =>
+    simp only [hd, Option.map_some, Option.some.injEq] at h
+    subst h
+    simp [CommandTree.consulted, CommandTree.build_dispatcher]
+
+/-- non-vacuity: `pkg` with sub-commands `add` and `repo`, `repo` with a sub-command of its own; the command two
+levels down consults the application's listeners, a handling listener there replaces the handler (status 7, no
+invocation) -/
+example : ∃ r,
+    CommandTree.runAt false (.ok ()) ⟨0, 5⟩ (.node [.node [], .node [.node []]]) [1, 0]
+      [.handled ⟨false, .ok 7⟩ false] (.ret ⟨true, .ok 0⟩) (fun _ => true) = some r ∧
+    r.status = some 7 ∧ r.reported = false ∧ r.handlerCalls = 0 := by
+  rw [sub_command_run]
+  exact ⟨_, rfl, by decide⟩
+
+/-- ... and a path that names no command is no run -/
+example : CommandTree.runAt false (.ok ()) ⟨0, 5⟩ (.node [.node []]) [3] [] (.ret ⟨true, .ok 0⟩) (fun _ => true) = none := by
+  rw [sub_command_run]; rfl
 
 end Clikit.Props.C04
